@@ -20,6 +20,7 @@ def expr_type(e, env, fns):
     if k == "lit": return e[1]
     if k == "bool": return "bool"
     if k == "str": return "str"
+    if k == "elit": return "E%d" % e[1]
     if k == "var": return env.get(e[1])
     if k == "bin":
         if e[1] in core.ARITH: return expr_type(e[2], env, fns)
